@@ -60,6 +60,62 @@ def run1(solver, script, timeout):
 
 
 # ------------------------------------------------------------------ s-expressions / instantiation
+def portfolio(script, order):
+    """run the back ends concurrently on one script; yields (solver, answer, ms) per back end, a definite answer (sat/unsat) first
+    and alone when there is one (the other process is killed): a query one solver decides in milliseconds does not wait for the other's timeout"""
+    fns, procs, t0 = {}, {}, time.time()
+    for sv, to in order:
+        fn = os.path.join(WORK, f"q_{os.getpid()}_{hashlib.md5(script.encode()).hexdigest()[:12]}_{sv}_{time.time_ns() % 1000000}.smt2")
+        with open(fn, "w") as f:
+            f.write(script)
+        cmd = SOLVERS[sv] + ([f"-T:{int(to)}"] if sv.startswith("z3") else [f"--tlimit={int(to * 1000)}"]) + [fn]
+        fns[sv] = fn
+        procs[sv] = (subprocess.Popen(cmd, stdout=subprocess.PIPE, stderr=subprocess.PIPE, text=True), to)
+    results, pending = [], dict(procs)
+    try:
+        while pending:
+            for sv in list(pending):
+                p, to = pending[sv]
+                if p.poll() is None and time.time() - t0 < to + 5:
+                    continue
+                if p.poll() is None:
+                    p.kill()
+                out, err = p.communicate()
+                pending.pop(sv)
+                out = (out or "").strip()
+                first = ""
+                for ln in out.split("\n"):
+                    ln = ln.strip()
+                    if ln in ("sat", "unsat", "unknown"):
+                        first = ln
+                        break
+                    if "(error" in ln or "rror:" in ln:
+                        first = "error:" + out[:300].replace("\n", " ")
+                        break
+                if first == "":
+                    first = "timeout" if (not out or "timeout" in (out + (err or "")).lower() or "interrupted" in (out + (err or "")).lower()) else "error:" + (out + " " + (err or ""))[:300].replace("\n", " ")
+                ms = round((time.time() - t0) * 1000)
+                if first in ("sat", "unsat"):
+                    for q, _ in pending.values():
+                        q.kill()
+                        q.communicate()
+                    pending.clear()
+                    return [(sv, first, ms)]
+                results.append((sv, first, ms))
+            if pending:
+                time.sleep(0.02)
+    finally:
+        for q, _ in procs.values():
+            if q.poll() is None:
+                q.kill()
+        for fn in fns.values():
+            try:
+                os.unlink(fn)
+            except OSError:
+                pass
+    return results
+
+
 def sx_parse(s):
     toks = re.findall(r'\(|\)|\|[^|]*\||"(?:[^"]|"")*"|[^\s()]+', s)
 
@@ -324,8 +380,7 @@ def discharge_one(o, tier="quick"):
             v.status, v.solver, v.stage = "proved", "z3", 1 if r1 == "sat" else 2
         return v
     script = full_script(o)
-    for sv, to in order:
-        r, ms, full = run1(sv, script, to)
+    for sv, r, ms in portfolio(script, order):
         v.ms += ms
         v.detail[f"s1-{sv}"] = r
         if r == "unsat":
@@ -333,7 +388,7 @@ def discharge_one(o, tier="quick"):
             return v
         if r == "sat":
             v.status, v.solver, v.stage = "refuted", sv, 1
-            rr, ms2, full2 = run1(sv, full_script(o, model=True), to)
+            rr, ms2, full2 = run1(sv, full_script(o, model=True), dict(order)[sv])
             v.model = full2
             return v
     try:
@@ -341,14 +396,14 @@ def discharge_one(o, tier="quick"):
     except Exception as e:
         v.detail["s2-error"] = str(e)[:200]
         return v
-    for sv, to in order:
-        r, ms, full = run1(sv, s2, to)
+    for sv, r, ms in portfolio(s2, order):
         v.ms += ms
         v.detail[f"s2-{sv}"] = r
         if r == "unsat":
             v.status, v.solver, v.stage = "proved", sv, 2
             return v
         if r == "sat":
+            rr, ms2, full = run1(sv, s2, dict(order)[sv])     # once more for the model text
             v.status, v.solver, v.stage, v.model = "refuted", sv, 2, full
             return v
     return v
